@@ -135,3 +135,38 @@ func (r *Result) Cleanup() {
 		r.Sub.Unsubscribe()
 	}
 }
+
+// WaitEvents waits for an asynchronous pipeline without trusting the clock: it
+// returns as soon as the recorder holds at least `want` callbacks (want < 0:
+// until a terminal was seen); if that does not happen it keeps waiting until the
+// process is quiescent AND at least `floor` has elapsed — the catalogue's timers
+// are ≤ a few ms or ≥ 1 h, so after a floor of thousands of timer periods a
+// quiescent process will not deliver anything more (timers fire late, never
+// early: waiting longer only makes the verdict safer). Returns whether the
+// expected callbacks arrived.
+func WaitEvents(r *rec.Rec, want int, floor, budget time.Duration) bool {
+	start := time.Now()
+	reached := func() bool {
+		if want < 0 {
+			return r.Terminal() != rec.Next
+		}
+		return r.Len() >= want
+	}
+	for {
+		if reached() {
+			// a short settle lets surplus callbacks (a violation) show up too
+			quiesce.Settle(20 * time.Millisecond)
+			return true
+		}
+		el := time.Since(start)
+		if el > floor {
+			if _, ok := quiesce.Settle(20 * time.Millisecond); ok {
+				return reached()
+			}
+		}
+		if el > budget {
+			return reached()
+		}
+		time.Sleep(300 * time.Microsecond)
+	}
+}
